@@ -538,3 +538,399 @@ class LoadEnum:
     def post_set_iff_member_name(self, elt, attr_string, klass, rules, old):
         t = xml_text(elt, attr_string)
         return getattr(rules, attr_string) == (klass[t] if enum_valid(t, klass) else getattr(old.rules, attr_string))
+
+
+# ======================================================================================================================
+# 1. lookup precedence (sparser.py): "an exact name beats any pattern, among patterns the longest match wins"
+# ======================================================================================================================
+def pat_matches(p, name):
+    """the pattern (wrapped in a capture group, as the code does) matches somewhere in the name: assumed re semantics"""
+    return uf('re_search_matches', bool, f'({p})', name)
+
+
+def len_match(p, name):
+    """length of the text captured by the pattern in the name (DESIGN: len_match(p, name), uninterpreted)"""
+    return len(uf('re_group', str, f'({p})', name, 0))
+
+
+@contract('sparser:Parser.get_best_pattern', props=['C18'])
+class GetBestPattern:
+    """statement: 'among patterns the longest match wins'; DESIGN C18.1: returns a matching pattern of maximal match
+    length, None iff none matches.  Nothing may escape: 'rule lookup terminates and gives the documented result' for
+    any XSD-valid file - the XSD accepts ANY string as a pattern (Appendix A25: re.error)."""
+    raises = ()
+    types = {'patterns': 'Dict[str, Element]', 'matching_patterns': 'List[Tuple[str, str]]'}
+    returns = 'Optional[str]'
+
+    def modifies(self):
+        return []
+
+    def post_none_iff_nothing_matches(self, name, patterns, result):
+        return (result is None) == forall(patterns, lambda p: not pat_matches(p, name))
+
+    def post_a_matching_pattern(self, name, patterns, result):
+        return implies(result is not None, result in patterns and pat_matches(result, name))
+
+    def post_of_maximal_match_length(self, name, patterns, result):
+        return implies(result is not None,
+                       forall(patterns, lambda p: implies(pat_matches(p, name), len_match(p, name) <= len_match(result, name))))
+
+    def loop0_inv(self, seen, name, matching_patterns):
+        return (was_fresh(matching_patterns)
+                and forall(int, lambda j: implies(0 <= j and j < len(matching_patterns),
+                                                  matching_patterns[j][0] in seen
+                                                  and pat_matches(matching_patterns[j][0], name)
+                                                  and matching_patterns[j][1]
+                                                  == uf('re_group', str, f'({matching_patterns[j][0]})', name, 0)))
+                and forall(seen, lambda p: implies(pat_matches(p, name),
+                                                   exists(int, lambda j: 0 <= j and j < len(matching_patterns)
+                                                          and matching_patterns[j][0] == p))))
+
+    def loop0_modifies(self, matching_patterns):
+        return [contents(matching_patterns)]
+
+
+def app_xpath(name):
+    return './application[@name="{}"]'.format(name)
+
+
+def exact_app(parser, k, name):
+    """element found by exact name in the k-th rules file (None when there is none): assumed ElementTree accessor"""
+    return uf('xml_find', 'Optional[Element]', parser.roots[k], app_xpath(name))
+
+
+@contract('sparser:Parser.get_application_element', props=['C18'])
+class GetApplicationElement:
+    """statement: 'an exact name beats any pattern, among patterns the longest match wins'; DESIGN C18.1: an element
+    found by exact name is returned regardless of patterns; otherwise the pattern chosen by get_best_pattern."""
+    raises = ()
+    returns = 'Optional[Element]'
+    types = {'application_elt': 'Optional[Element]'}
+
+    def modifies(self):
+        return []
+
+    def post_exact_name_first(self, application_name, result):
+        return forall(int, lambda k: implies(
+            0 <= k and k < len(self.roots) and exact_app(self, k, application_name) is not None
+            and forall(int, lambda j: implies(0 <= j and j < k, exact_app(self, j, application_name) is None)),
+            result == exact_app(self, k, application_name)))
+
+    def post_else_best_pattern(self, application_name, result):
+        nothing_exact = forall(int, lambda k: implies(0 <= k and k < len(self.roots),
+                                                      exact_app(self, k, application_name) is None))
+        pats = self.application_patterns
+        return implies(nothing_exact, ite(
+            forall(pats, lambda p: not pat_matches(p, application_name)),
+            result is None,
+            exists(str, lambda p: p in pats and result == pats[p] and pat_matches(p, application_name)
+                   and forall(pats, lambda q: implies(pat_matches(q, application_name),
+                                                      len_match(q, application_name) <= len_match(p, application_name))))))
+
+    def loop0_inv(self, k, application_name, application_elt):
+        return (application_elt is None
+                and forall(int, lambda j: implies(0 <= j and j < k, exact_app(self, j, application_name) is None)))
+
+    def loop0_modifies(self):
+        return []
+
+
+def ns_process(namespec):
+    return uf('ns_process', 'Optional[str]', namespec)
+
+
+def prg_xpath(process_name):
+    return f'./programs/program[@name="{process_name}"]'
+
+
+@contract('sparser:Parser.get_program_element', props=['C18'])
+class GetProgramElement:
+    """statement: 'an exact name beats any pattern, among patterns the longest match wins' (programs, inside the
+    application element chosen by get_application_element); is_pattern tells which of the two happened."""
+    raises = ()
+    returns = 'Tuple[Optional[Element], bool]'
+
+    def modifies(self):
+        return []
+
+    def pre_namespec_of_a_real_process(self, namespec):
+        # call sites: namespecs of processes known to Supervisor ('group:process' with a non-empty process name that
+        # is not '*'), for which split_namespec returns a process name
+        return ns_process(namespec) is not None
+
+    def post_no_application_no_rules(self, namespec, result):
+        return implies(result[0] is None, not result[1])
+
+    def post_exact_name_else_best_pattern(self, namespec, result):
+        name = ns_process(namespec)
+        return implies(result[0] is not None, exists(Element, lambda app: (
+            (not result[1] and result[0] == uf('xml_find', 'Optional[Element]', app, prg_xpath(name)))
+            or (result[1] and uf('xml_find', 'Optional[Element]', app, prg_xpath(name)) is None
+                and app in self.program_patterns
+                and exists(str, lambda p: p in self.program_patterns[app] and result[0] == self.program_patterns[app][p]
+                           and pat_matches(p, name)
+                           and forall(self.program_patterns[app], lambda q: implies(
+                               pat_matches(q, name), len_match(q, name) <= len_match(p, name))))))))
+
+
+@contract('sparser:Parser.get_model_element', props=['C18'])
+class GetModelElement:
+    """the model named by the <reference> child, None when there is no such child or no such model"""
+    raises = ()
+    returns = 'Optional[Element]'
+    types = {'elt': 'Element'}
+
+    def modifies(self):
+        return []
+
+    def post_definition(self, elt, result):
+        return result == model_of(self, elt)
+
+
+def model_of(parser, elt):
+    ref = xml_text(elt, 'reference')
+    return parser.models[ref] if (ref is not None and ref in parser.models) else None
+
+
+# ======================================================================================================================
+# identifiers (decision logic on the abstract list; alias expansion / sign extraction themselves: bounded stand-in)
+# ======================================================================================================================
+@contract('sparser:Parser.check_identifier_list', props=['C18'])
+class CheckIdentifierList:
+    """ASSUMED here (string splitting, list slicing): a new list of strings, nothing else touched, nothing raised.  Its
+    functional behaviour (aliases expand in order, duplicates and empty items removed) is exercised on the real function
+    by the bounded stand-in of pyvc/structural_c18.py."""
+    assumed = True
+    raises = ()
+    returns = 'List[str]'
+
+    def modifies(self):
+        return []
+
+    def post_new_list(self, result):
+        return was_fresh(result)
+
+
+@contract('sparser:Parser.load_identifiers', props=['C18'])
+class LoadIdentifiers:
+    """frame and sign discipline: only the three identifier lists of the rules may change, nothing escapes; without an
+    <identifiers> text nothing changes; a sign leaves the plain list empty and a non-empty '@' / '#' list"""
+    raises = ()
+    types = {'elt': 'Element'}
+    variants = ['rules:ProcessRules', 'rules:ApplicationRules']
+
+    def modifies(self, rules):
+        return [field(rules, 'identifiers'), field(rules, 'at_identifiers'), field(rules, 'hash_identifiers')]
+
+    def post_no_text_no_change(self, elt, rules, old):
+        return implies(not has_text(xml_text(elt, 'identifiers')),
+                       rules.identifiers is old.rules.identifiers and rules.at_identifiers is old.rules.at_identifiers
+                       and rules.hash_identifiers is old.rules.hash_identifiers)
+
+    def post_sign_discipline(self, elt, rules, old):
+        return (implies(rules.at_identifiers is not old.rules.at_identifiers,
+                        len(rules.at_identifiers) > 0 and len(rules.identifiers) == 0)
+                and implies(rules.hash_identifiers is not old.rules.hash_identifiers,
+                            len(rules.hash_identifiers) > 0 and len(rules.identifiers) == 0))
+
+
+@contract('sparser:Parser.load_status', props=['C18'])
+class LoadStatus:
+    """ASSUMED (ast.parse of the formula belongs to C15): only the status formula of the rules may change, nothing
+    escapes (ApplicationStatusParseError is caught)"""
+    assumed = True
+    raises = ()
+    types = {'elt': 'Element'}
+
+    def modifies(self, rules):
+        return [field(rules, '_status_formula'), field(rules, '_status_tree')]
+
+
+# ======================================================================================================================
+# 2. model references: "followed to depth 3 at most, values set on the element supersede referenced ones"
+# ======================================================================================================================
+def resolved(parser, elt, below0, n, own):
+    """value of one attribute after load_model_rules(elt, rules, n) when it is below0 before: the referenced model (if
+    any) is resolved first with depth n - 1, then the element's own valid value supersedes it; depth 0 loads nothing"""
+    if n == 0:
+        return below0
+    m = model_of(parser, elt)
+    below = ite(m is not None, resolved(parser, m, below0, n - 1, own), below0)
+    return own(elt, below)
+
+
+def own_seq(elt, tag, below):
+    t = xml_text(elt, tag)
+    return ite(seq_valid(t), uf('int_value', int, t), below)
+
+
+def own_bool(elt, tag, below):
+    t = xml_text(elt, tag)
+    return ite(bool_valid(t), uf('bool_value', bool, t), below)
+
+
+def own_load(elt, below):
+    t = xml_text(elt, 'expected_loading')
+    return ite(load_valid(t), uf('int_value', int, t), below)
+
+
+def own_enum(elt, tag, klass, below):
+    t = xml_text(elt, tag)
+    return ite(enum_valid(t, klass), klass[t], below)
+
+
+RULE_FIELDS = ('identifiers', 'at_identifiers', 'hash_identifiers', 'start_sequence', 'stop_sequence', 'required',
+               'wait_exit', 'expected_load', 'starting_failure_strategy', 'running_failure_strategy')
+
+
+@contract('sparser:Parser.load_model_rules', props=['C18'])
+class LoadModelRules:
+    """statement: 'model references are followed to depth 3 at most, values set on the element supersede referenced
+    ones'; DESIGN C18.2: decreases loop_check; for each attribute the final value is the element's if the element sets a
+    valid one, else the model chain's (resolved(), unrolled over the depths 0..LOOP_CHECK that occur)."""
+    raises = ()
+    types = {'program_elt': 'Element'}
+
+    def decreases(self, loop_check):
+        return loop_check
+
+    def modifies(self, rules):
+        return [field(rules, 'identifiers'), field(rules, 'at_identifiers'), field(rules, 'hash_identifiers'),
+                field(rules, 'start_sequence'), field(rules, 'stop_sequence'), field(rules, 'required'),
+                field(rules, 'wait_exit'), field(rules, 'expected_load'), field(rules, 'starting_failure_strategy'),
+                field(rules, 'running_failure_strategy')]
+
+    def pre_depth(self, loop_check):
+        # call sites: Parser.LOOP_CHECK = 3 (load_program_rules) and loop_check - 1 behind the loop_check == 0 test
+        return 0 <= loop_check and loop_check <= 3
+
+    def post_depth_zero_loads_nothing(self, loop_check, rules, old):
+        return implies(loop_check == 0, rules.identifiers is old.rules.identifiers
+                       and rules.at_identifiers is old.rules.at_identifiers
+                       and rules.hash_identifiers is old.rules.hash_identifiers)
+
+    def post_start_sequence(self, program_elt, rules, loop_check, old):
+        return all(implies(loop_check == n, rules.start_sequence == resolved(
+            self, program_elt, old.rules.start_sequence, n, lambda e, b: own_seq(e, 'start_sequence', b))) for n in (0, 1, 2, 3))
+
+    def post_stop_sequence(self, program_elt, rules, loop_check, old):
+        return all(implies(loop_check == n, rules.stop_sequence == resolved(
+            self, program_elt, old.rules.stop_sequence, n, lambda e, b: own_seq(e, 'stop_sequence', b))) for n in (0, 1, 2, 3))
+
+    def post_required(self, program_elt, rules, loop_check, old):
+        return all(implies(loop_check == n, rules.required == resolved(
+            self, program_elt, old.rules.required, n, lambda e, b: own_bool(e, 'required', b))) for n in (0, 1, 2, 3))
+
+    def post_wait_exit(self, program_elt, rules, loop_check, old):
+        return all(implies(loop_check == n, rules.wait_exit == resolved(
+            self, program_elt, old.rules.wait_exit, n, lambda e, b: own_bool(e, 'wait_exit', b))) for n in (0, 1, 2, 3))
+
+    def post_expected_load(self, program_elt, rules, loop_check, old):
+        return all(implies(loop_check == n, rules.expected_load == resolved(
+            self, program_elt, old.rules.expected_load, n, own_load)) for n in (0, 1, 2, 3))
+
+    def post_starting_failure_strategy(self, program_elt, rules, loop_check, old):
+        return all(implies(loop_check == n, rules.starting_failure_strategy == resolved(
+            self, program_elt, old.rules.starting_failure_strategy, n,
+            lambda e, b: own_enum(e, 'starting_failure_strategy', StartingFailureStrategies, b))) for n in (0, 1, 2, 3))
+
+    def post_running_failure_strategy(self, program_elt, rules, loop_check, old):
+        return all(implies(loop_check == n, rules.running_failure_strategy == resolved(
+            self, program_elt, old.rules.running_failure_strategy, n,
+            lambda e, b: own_enum(e, 'running_failure_strategy', RunningFailureStrategies, b))) for n in (0, 1, 2, 3))
+
+
+@contract('sparser:Parser.load_program_rules', props=['C18'])
+class LoadProgramRules:
+    """observation point of the statement (get_process_rules for every name): lookup, bounded model resolution and the
+    dependency checks compose without anything escaping; afterwards 'required without a start_sequence is dropped',
+    'stop_sequence defaults to start_sequence' (never left negative) and '@' / '#' are never both set"""
+    raises = ()
+
+    def modifies(self, rules):
+        return [field(rules, 'identifiers'), field(rules, 'at_identifiers'), field(rules, 'hash_identifiers'),
+                field(rules, 'start_sequence'), field(rules, 'stop_sequence'), field(rules, 'required'),
+                field(rules, 'wait_exit'), field(rules, 'expected_load'), field(rules, 'starting_failure_strategy'),
+                field(rules, 'running_failure_strategy')]
+
+    def pre_namespec_of_a_real_process(self, namespec):
+        return ns_process(namespec) is not None
+
+    def pre_fresh_rules(self, rules):
+        # call sites: rules objects built by ProcessRules.__init__ (class defaults start_sequence = 0)
+        return rules.start_sequence >= 0
+
+    def post_required_needs_start_sequence(self, rules):
+        return not (rules.required and rules.start_sequence == 0)
+
+    def post_sequences_in_domain(self, rules):
+        return rules.start_sequence >= 0 and rules.stop_sequence >= 0
+
+    def post_never_both_signs(self, rules):
+        return not (len(rules.at_identifiers) > 0 and len(rules.hash_identifiers) > 0)
+
+
+@contract('sparser:Parser.load_application_rules', props=['C18'])
+class LoadApplicationRules:
+    """observation point of the statement (get_application_rules for every name): nothing escapes; an application
+    without element stays unmanaged with its defaults; stop_sequence defaults to start_sequence (never left negative)"""
+    raises = ()
+
+    def modifies(self, rules):
+        return [field(rules, 'managed'), field(rules, 'distribution'), field(rules, 'identifiers'),
+                field(rules, 'at_identifiers'), field(rules, 'hash_identifiers'), field(rules, 'start_sequence'),
+                field(rules, 'stop_sequence'), field(rules, 'starting_strategy'), field(rules, 'starting_failure_strategy'),
+                field(rules, 'running_failure_strategy'), field(rules, '_status_formula'), field(rules, '_status_tree')]
+
+    def pre_fresh_rules(self, rules):
+        # call sites: rules objects built by ApplicationRules.__init__ (class defaults, no '#' list yet)
+        return rules.start_sequence >= 0 and not rules.managed and len(rules.hash_identifiers) == 0
+
+    def pre_mapper_knows_the_local_instance(self, rules):
+        return mapper_valid(rules)
+
+    def pre_regex_semantics_of_the_literal_pattern(self):
+        return literal_regex_facts()
+
+    def post_unmanaged_keeps_defaults(self, rules, old):
+        return implies(not rules.managed,
+                       rules.start_sequence == old.rules.start_sequence and rules.distribution == old.rules.distribution
+                       and rules.identifiers is old.rules.identifiers
+                       and rules.starting_strategy == old.rules.starting_strategy
+                       and rules.starting_failure_strategy == old.rules.starting_failure_strategy
+                       and rules.running_failure_strategy == old.rules.running_failure_strategy)
+
+    def post_sequences_in_domain(self, rules):
+        return rules.start_sequence >= 0 and rules.stop_sequence >= 0
+
+
+def period_ok(text):
+    return uf('float_parses', bool, text) and period_in_range(uf('float_value', 'fp64', text))
+
+
+@contract('options:SupvisorsOptions._get_value', props=['C18'])
+class GetValue:
+    """statement: 'every [supvisors] option outside its documented range falls back to its default'; DESIGN C18.5:
+    _get_value returns the default on ValueError and lets nothing else escape.  Verified once per converter passed by
+    __init__ (the converter's own contract gives what it may raise)."""
+    raises = ()
+    types = {'config': 'Dict[str, str]'}
+    variants = ['default_value=1; fct=SupvisorsOptions.to_ttl', 'default_value=0; fct=SupvisorsOptions.to_port_num',
+                'default_value=15; fct=SupvisorsOptions.to_timeout', 'default_value=2; fct=SupvisorsOptions.to_ticks',
+                'default_value=200; fct=SupvisorsOptions.to_histo', 'default_value=5; fct=SupvisorsOptions.to_period',
+                'default_value=EventLinks.NONE; fct=SupvisorsOptions.to_event_link',
+                'default_value=ConciliationStrategies.USER; fct=SupvisorsOptions.to_conciliation_strategy',
+                'default_value=StartingStrategies.CONFIG; fct=SupvisorsOptions.to_starting_strategy',
+                'default_value=SupvisorsFailureStrategies.CONTINUE; fct=SupvisorsOptions.to_supvisors_failure_strategy',
+                'default_value=SupvisorsOptions.SYNCHRO_DEFAULT_OPTIONS; fct=SupvisorsOptions.to_synchro_options',
+                'default_value=(True, True); fct=SupvisorsOptions.to_statistics_type',
+                'default_value=""; fct=None']
+
+    def modifies(self):
+        return []
+
+    def post_absent_option_gives_the_default_object_itself(self, config, attr, default_value, result):
+        return implies(attr not in config, same(result, default_value))
+
+    def post_no_converter_gives_the_text(self, config, attr, fct, result):
+        return implies(attr in config and fct is None, result == config[attr])
